@@ -412,6 +412,91 @@ def chain_paths_in_views(facts, mb, bi, name, rem_m, has_m, touching):
     return None
 
 
+def chain_conservation(res, facts, trait, rem_m, methods):
+    """Chain::{advance, advance_mut, copy_to_bytes}(n): on every returning path the amounts taken from the two halves add up to
+    exactly n - decided in the linear-inequality domain from the relations on the path. Amounts: x.advance(k) / x.copy_to_bytes(k)
+    -> k; `ret.put(&mut self.a)` drains a -> a.remaining(); `ret.put((&mut self.b).take(k))` -> k."""
+    from .flow import PathExprBuilder, path_relations, refuted_by_variants
+    from .inline import views
+    from .lin import State
+    head = "buf::chain::Chain"
+    tname = "Chain(%s)" % trait.rsplit("::", 1)[-1]
+    a_f, b_f = self_field("a"), self_field("b")
+    n = 0
+    for m in methods:
+        mb = method_body(facts, trait, head, m)
+        if mb is None:
+            continue
+        key = "%s::%s|amounts add up" % (tname, m)
+
+        def judge(v):
+            n_paths = 0
+            cfgv = cfg_of(v)
+            if any(cfgv.reaches(d, s_) for s_ in range(cfgv.n) for d in cfgv.succ[s_] if not v.blocks[s_]["cleanup"] and not v.blocks[d]["cleanup"] and (d == s_ or cfgv.reaches(d, s_))):
+                return None, "the view contains a loop (values read along a path are not stable)"
+            for path in enumerate_paths(v):
+                pe = PathExprBuilder(v, facts, path, inline=False)
+                rels = path_relations(v, facts, path)
+                if refuted_by_variants(rels):
+                    continue
+                amounts = []
+                for pb in path:
+                    t = v.blocks[pb]["term"]
+                    if t["k"] != "call":
+                        continue
+                    fn = callee(t)
+                    if fn is None or not t["args"]:
+                        continue
+                    loc = (pb, len(v.blocks[pb]["stmts"]))
+                    args = [canon(pe.operand(x, loc)) for x in t["args"]]
+                    recv = strip_refs(args[0])
+                    nm = fn["name"]
+                    if (a_f(recv) or b_f(recv)) and nm in ("advance", "advance_mut", "copy_to_bytes") and len(args) > 1:
+                        amounts.append(args[1])
+                    elif nm == "put" and len(args) == 2:
+                        src = strip_refs(args[1])
+                        if a_f(src) or b_f(src):
+                            # what a drained half gives up is its remaining(): the value the method read before (same receiver)
+                            seen = [x for r in rels for side in r[1:3] if isinstance(side, tuple) for x in walk(side)
+                                    if isinstance(x, tuple) and x and x[0] == "ucall" and x[1].rsplit("::", 1)[-1] == rem_m and x[2] and strip_refs(canon(x[2][0])) == src]
+                            amounts.append(seen[0] if seen else ("ucall", trait + "::" + rem_m, (args[1],), None))
+                        elif isinstance(src, tuple) and src and src[0] in ("call", "ucall") and src[1].rsplit("::", 1)[-1] == "take" and len(src[2]) == 2 \
+                                and (a_f(strip_refs(src[2][0])) or b_f(strip_refs(src[2][0]))):
+                            amounts.append(src[2][1])
+                        else:
+                            return None, "an amount this rule cannot read (%s)" % fmt_expr(args[1])[:60]
+                    elif (a_f(recv) or b_f(recv)) and nm not in (rem_m, "has_remaining", "has_remaining_mut", "chunk", "chunk_mut", "chunks_vectored", "remaining", "remaining_mut",
+                                                              "take", "limit", "by_ref", "get_ref", "get_mut"):
+                        return None, "a consuming call this rule cannot account (%s)" % nm
+                if not amounts:
+                    continue
+                n_paths += 1
+                total = amounts[0]
+                for x in amounts[1:]:
+                    total = ("bin", "Add", total, x)
+                # a drained half contributes its own remaining(): identify `a.remaining()` read earlier with the same call
+                facts_ = [r for r in rels if r[0] in ("lt", "le", "eq", "ne") or (r[0] == "truth" and not (isinstance(r[1], tuple) and r[1] and r[1][0] == "ovf"))]
+                if not State(facts_).entails(("eq", total, ("param", 2))):
+                    return False, "on the path bb%s the halves give up %s bytes, which the conditions on that path do not make equal to the %s requested" % (
+                        "->bb".join(str(x) for x in path), fmt_expr(canon(total))[:120], "n")
+            return (True, "%d paths, the amounts taken from a and b add up to the request on each" % n_paths) if n_paths else (None, "no consuming path")
+        ok, text = judge(mb)
+        if ok is False or ok is None:
+            for ib in views(facts, mb):
+                ok2, text2 = judge(ib)
+                if ok2:
+                    ok, text = True, text2 + " (with helpers inlined)"
+                    break
+        if ok is None:
+            continue            # reshaped beyond what this clause reads: the order clause above still decides
+        n += 1
+        if ok:
+            res.ok(key, mb.loc(), text, nontrivial=True)
+        else:
+            res.bad(key, mb.loc(), text)
+    return n
+
+
 def mentions_dst(e):
     """`e` (what a.remaining() is compared with) is computed from the slices that `a` listed and from nothing else in dst:
     every use of dst sits under `dst[..n]` with n the count a.chunks_vectored reported (or is the argument of that very
@@ -531,6 +616,8 @@ def run(facts, prop=None):
     check_limit_adapter(res, facts, BUFMUT, "buf::limit::Limit", "Limit", "remaining_mut", "chunk_mut", "advance_mut")
     n = check_chain(res, facts, BUF, "remaining", "has_remaining", ("advance", "copy_to_bytes"))
     n += check_chain(res, facts, BUFMUT, "remaining_mut", "has_remaining_mut", ("advance_mut",))
+    chain_conservation(res, facts, BUF, "remaining", ("advance", "copy_to_bytes"))
+    chain_conservation(res, facts, BUFMUT, "remaining_mut", ("advance_mut",))
     res.floor("chain_b_calls", n, 6)
     has_std = any(c == 'feature="std"' for c in facts.cfg)
     if has_std:
